@@ -27,7 +27,7 @@ func init() {
 			{ID: "C20-R4", Title: "one token per diagnostic; errors built from the parser's own tokens", Floor: 6, Run: c20r4},
 			{ID: "C20-R5", Title: "operator precedence fixed before advancing", Floor: 2, Run: c20r5},
 			{ID: "C20-R7", Title: "character positions (rune indices) are not used as byte offsets (shared with C16-R5)", Floor: 10, Run: unitsRule},
-			{ID: "C20-R8", Title: "source-order comparisons are lexicographic (shared with C05-R5)", Floor: 1, Run: brokenLexicographicLess},
+			{ID: "C20-R8", Title: "source-order comparisons are lexicographic (shared with C05-R5)", Floor: 1, Run: lexicographicBoth},
 			{ID: "C20-R9", Title: "the lexer indexes and slices only under a length test (shared with C03-R10)", Floor: 1, Run: lexerIndexingGuarded},
 			{ID: "C20-R6", Title: "error renderers index and slice only under a length test (shared with C03-R6)", Floor: 5, Run: formatterBounds},
 		},
